@@ -179,6 +179,28 @@ def main(name):
                     pass
                 if storage[stored[0]] != text_for(name, stored[0]) or len(storage) != len(stored) + 1:
                     problems.append("a rejected second store changed the storage")
+            # a store whose write fails (a text that cannot be encoded for the file): the exception reaches the caller and the
+            # storage is as before — the identifier is free, nothing counts it, a later store under it works
+            bad = free + 1
+            n_before, it_before = len(storage), list(storage)
+            try:
+                storage[bad] = "cannot be encoded \ud800 for the file"
+                problems.append("a store of a text that cannot be encoded did not raise")
+            except (UnicodeError, ValueError):
+                pass
+            try:
+                t = storage[bad]
+                problems.append(f"after a store that raised, storage[{bad}] returns {t[:40]!r} instead of raising IndexError")
+            except IndexError:
+                pass
+            if len(storage) != n_before or list(storage) != it_before:
+                problems.append(f"a store that raised changed the storage: len {n_before} -> {len(storage)}")
+            try:
+                storage[bad] = "stored after the failed attempt"
+                if storage[bad] != "stored after the failed attempt" or len(storage) != n_before + 1:
+                    problems.append("a store under an identifier whose first store had raised is not read back")
+            except ValueError:
+                problems.append("an identifier whose store raised counts as stored: a later store under it raises ValueError")
             storage.close()
             storage.flush()
             left = os.listdir(d)
